@@ -21,7 +21,11 @@ def run_rule_cases(variant, groups, wd, name, flags=0, extra_lines_before=(), ha
         lines.append("add 0 %s %s" % (g.get("ns") or "-", yv.hx(src)))
         lines.append("getrules 0 0")
         lines.append("cdestroy 0")
+        for ln in g.get("post_rules", ()):
+            lines.append(ln)
         lines.append("scanner 0 0")
+        for ln in g.get("post_scanner", ()):
+            lines.append(ln)
         if g.get("flags", flags):
             lines.append("sflags 0 %d" % g.get("flags", flags))
         for bi, b in enumerate(g["bufs"]):
